@@ -125,6 +125,11 @@ Theorem C03_append_hub_charges_use : forall st i j si s u, i <> j ->
 Proof. exact append_hub_charges_use. Qed.
 Print Assumptions C03_append_hub_charges_use.
 
+(* returned containers are values: mutating one in place afterwards changes no live object *)
+Theorem C03_mutating_a_result_changes_nothing : forall st m, step st (OMutateResult m) = (st, OSelf).
+Proof. exact mutating_a_result_changes_nothing. Qed.
+Print Assumptions C03_mutating_a_result_changes_nothing.
+
 Theorem C03_thub_noniterable_is_identity : forall st z n, step st (OThubVal z n) = (st, OItem z).
 Proof. exact thub_noniterable_is_identity. Qed.
 Print Assumptions C03_thub_noniterable_is_identity.
